@@ -194,7 +194,7 @@ Lemma take_slice_ok n buf p b i' p' :
   p <= nlen buf -> take_slice n (ndrop p buf) p = Ok (b, i', p') ->
   b = slice buf p n /\ p' = p + n /\ p + n <= nlen buf.
 Proof.
-  intros Hp H. unfold take_slice in H. rewrite nlen_ndrop in H.
+  intros Hp H. rewrite take_slice_eq in H. rewrite nlen_ndrop in H.
   destruct (N.leb_spec n (nlen buf - p)); inv H. unfold slice. repeat split. lia.
 Qed.
 
